@@ -7,9 +7,10 @@ Model driver for C20 (`drv_caller`).
 
   caller.run  <guess> <known|-> <queries> <x hex of comma-separated gate schedule>
       -> ok feasible results=<r,..> checks=<k:r;..> maindone=<0|1> bgdone=<0|1> owner=<-|bg|main> steps=<n>
-       | ok infeasible <index> <mismatch|blocked>
+       | ok infeasible <index> blocked | ok infeasible <index> mismatch <gate the thread stands at|->
   caller.enum <guess> <known|-> <queries>
       -> ok <n> <schedule>|<schedule>|...     (every gate schedule until the main thread is done)
+  caller.shape -> ok bg=<stmt,..> pub=<stmt,..> query=<stmt,..>   (statement order the model executes)
 Values: `pending` or `v<n>`.
 -/
 
@@ -50,8 +51,13 @@ def stepCaller (line : String) : String :=
           ++ " bgdone=" ++ (if s.bpc = .done then "1" else "0")
           ++ " owner=" ++ ownerStr s.owner
           ++ " steps=" ++ toString r.choices.length
-      | .error (i, .mismatch) => "ok infeasible " ++ toString i ++ " mismatch"
-      | .error (i, .blocked) => "ok infeasible " ++ toString i ++ " blocked"
+      | .error (i, .mismatch, r) =>
+        -- the gate the thread of event i really stands at (`-`: asleep, or finished)
+        let standsAt := match evs[i]? with
+          | some e => (if e.isBg then bgGate r.state.bpc else mainGate cfg r.state).map Gate.name
+          | none => none
+        "ok infeasible " ++ toString i ++ " mismatch " ++ standsAt.getD "-"
+      | .error (i, .blocked, _) => "ok infeasible " ++ toString i ++ " blocked"
     | _, _ => "ERR"
   | ["caller.enum", g, k, q] =>
     match parseCfg g k q with
@@ -59,6 +65,9 @@ def stepCaller (line : String) : String :=
       let all := enumGates cfg (8 * cfg.queries + 40) (gateInit cfg) []
       "ok " ++ toString all.length ++ " " ++ "|".intercalate (all.map (",".intercalate ·))
     | none => "ERR"
+  | ["caller.shape"] =>
+    "ok bg=" ++ ",".intercalate bgShape ++ " pub=" ++ ",".intercalate pubShape
+      ++ " query=" ++ ",".intercalate queryShape
   | _ => "ERR"
 
 def main : IO Unit := serve stepCaller
